@@ -107,6 +107,10 @@ pub struct WsOpts {
     pub dep_cycles: bool,
     /// overrides (a fixture requesting its own name) may also live in imported helper modules
     pub helper_self_dep_per_mille: u32,
+    /// helper modules may be named like stdlib modules (then they are imported relatively)
+    pub stdlib_named_helpers: bool,
+    /// explicit imports may also name something the module does not define as a fixture
+    pub import_plain_names: bool,
     pub file: GenOpts,
 }
 
@@ -124,6 +128,8 @@ impl Default for WsOpts {
             scopes: true,
             dep_cycles: false,
             helper_self_dep_per_mille: 0,
+            stdlib_named_helpers: false,
+            import_plain_names: false,
             file: GenOpts { alias: false, assign_style: false, ..GenOpts::default() },
         }
     }
@@ -159,17 +165,20 @@ fn helper_module(rng: &mut Rng, dir: &str, k: usize, names: &[String], o: &WsOpt
         items.push(Item::Fixture(Fx { func: rng.pick(names).clone(), ..Default::default() }));
     }
     items.retain(|i| !matches!(i, Item::Test(_)));
-    PyFile { rel: join_rel(dir, &format!("fx_{}{}.py", dir.replace('/', "_"), k)), items }
+    // now and then a local module is named like a standard-library module (legal: it is imported relatively)
+    let name = if o.stdlib_named_helpers && rng.chance(200) { format!("{}.py", rng.pick(&["http", "types", "random", "email", "string"])) } else { format!("fx_{}{}.py", dir.replace('/', "_"), k) };
+    PyFile { rel: join_rel(dir, &name), items }
 }
 
 fn module_ref(rng: &mut Rng, from_dir: &str, target_rel: &str) -> Option<String> {
     let tdir = dir_of(target_rel);
     let stem = target_rel.rsplit('/').next().unwrap().trim_end_matches(".py").to_string();
+    let stdlib_like = ["http", "types", "random", "email", "string"].contains(&stem.as_str());
     if tdir == from_dir {
-        Some(if rng.chance(500) { format!(".{}", stem) } else { stem })
+        Some(if stdlib_like || rng.chance(500) { format!(".{}", stem) } else { stem })
     } else if parent_dir(from_dir).as_deref() == Some(tdir.as_str()) {
         // module lives in the parent directory
-        Some(if rng.chance(500) { format!("..{}", stem) } else { stem })
+        Some(if stdlib_like || rng.chance(500) { format!("..{}", stem) } else { stem })
     } else {
         None
     }
@@ -203,7 +212,10 @@ pub fn gen_ws(rng: &mut Rng, o: &WsOpts) -> WsSpec {
                     // names private to imports: never defined anywhere else
                     vec![format!("imp{}", helper_k), format!("imq{}", helper_k)]
                 };
-                let h = helper_module(rng, d, helper_k, &pool, o);
+                let mut h = helper_module(rng, d, helper_k, &pool, o);
+                if files.iter().chain(helpers.iter()).any(|f: &PyFile| f.rel == h.rel) {
+                    h.rel = join_rel(d, &format!("fx_{}{}.py", d.replace('/', "_"), helper_k));
+                }
                 imported_names.extend(fixture_names_of(&h));
                 helpers.push(h);
             }
@@ -244,8 +256,16 @@ pub fn gen_ws(rng: &mut Rng, o: &WsOpts) -> WsSpec {
                         let mut ns: Vec<String> = hn.clone();
                         rng.shuffle(&mut ns);
                         ns.truncate(rng.range(1, ns.len().max(1)));
+                        if o.import_plain_names && rng.chance(300) {
+                            // a plain (non-fixture) name of that module which happens to be a fixture name elsewhere
+                            let extra = rng.pick(&names).clone();
+                            if !hn.contains(&extra) {
+                                ns.push(extra);
+                            }
+                        }
                         Item::Import { module: m, names: ns, target: Some(h.rel.clone()) }
                     }
+                    _ if ["http", "types", "random", "email", "string"].contains(&h.rel.rsplit('/').next().unwrap_or("").trim_end_matches(".py")) => Item::Star { module: m, target: Some(h.rel.clone()) },
                     _ => Item::Plugins { modules: vec![m.trim_start_matches('.').to_string()], targets: vec![Some(h.rel.clone())] },
                 };
                 // pytest_plugins only understands absolute names; keep the module reachable that way
@@ -298,6 +318,8 @@ pub fn gen_ws(rng: &mut Rng, o: &WsOpts) -> WsSpec {
         }
     }
     rng.shuffle(&mut spec.files);
+    // creation order of the metadata files decides the readdir order of site-packages (dist-info directories)
+    rng.shuffle(&mut spec.extra);
     let _ = imported_names;
     spec
 }
